@@ -1,7 +1,7 @@
 (* BrowserInv.v — C14: over the whole life of a browser, for every sequence of handler invocations (messages, cache
    and browser timers, API calls, any number of browsers and shared caches), its notifications form well-formed life
    cycles per instance, and a typed browser only reports services of its type. *)
-From QV Require Import Base Fields SrcFacts Msg SrcDecisions Cache CacheSpec CacheProofs Sim Prober Resolver Browser BrowserProofs.
+From QV Require Import Base Fields SrcFacts Msg SrcDecisions Cache CacheSpec CacheProofs Sim SimProofs Prober Resolver Browser BrowserProofs.
 From Coq Require Import ZifyBool ZifyNat ZifyN.
 Local Open Scope Z_scope.
 
@@ -453,20 +453,14 @@ Proof.
 Qed.
 
 (* ---- the whole life of browser j, from the moment it exists: any sequence of handler invocations ---- *)
-Fixpoint world_life (evs : list (Z * event bapi)) (w : world) : world * list eff :=
-  match evs with
-  | [] => (w, [])
-  | (now, ev) :: evs' =>
-      let '(w1, e1) := world_handle now w ev in
-      let '(w2, e2) := world_life evs' w1 in (w2, e1 ++ e2)
-  end.
+Definition world_life := life world bapi world_handle.
 
 Lemma world_life_step : forall evs w, let '(w', es) := world_life evs w in WStep w es w'.
 Proof.
-  induction evs as [|[now ev] evs IH]; intro w; cbn [world_life].
+  unfold world_life. induction evs as [|[now ev] evs IH]; intro w; cbn [life].
   - apply WStep_refl; [reflexivity|intros; apply quiet_nil].
   - pose proof (world_handle_step now w ev) as H1. destruct (world_handle now w ev) as [w1 e1].
-    specialize (IH w1). destruct (world_life evs w1) as [w2 e2]. eapply WStep_trans; eauto.
+    specialize (IH w1). destruct (life world bapi world_handle evs w1) as [w2 e2]. eapply WStep_trans; eauto.
 Qed.
 
 Lemma R_empty ty : R ty [] [].
@@ -499,4 +493,43 @@ Proof.
   - left. auto.
   - right. left. eauto.
   - right. right. eauto.
+Qed.
+
+(* ---- kernel runs: the signal outputs of any script, from any kernel state in which browser j has nothing added ---- *)
+Lemma LC_sigs ty j p es p' : LC ty j p es p' -> LC ty j p (eff_sigs es) p'.
+Proof.
+  induction 1 as [p|p e es p' Hs _ IH|p e es p' k s Hs Hn Ht Hf _ IH|p e es p' k s old Hs Hn Ht Hf He _ IH|p e es p' k s old Hs Hn Ht Hf He _ IH];
+    [constructor|..]; unfold eff_sigs in *; cbn [filter].
+  - destruct e; try exact IH. apply LC_skip; assumption.
+  - destruct e as [m|m|ob sg pl|tid ms|tid|rs]; try discriminate. eapply LC_add; eauto.
+  - destruct e as [m|m|ob sg pl|tid ms|tid|rs]; try discriminate. eapply LC_upd; eauto.
+  - destruct e as [m|m|ob sg pl|tid ms|tid|rs]; try discriminate. eapply LC_rem; eauto.
+Qed.
+
+Theorem browser_life_cycles_kernel fuel ops (s : sim world) j b :
+  nth_error (w_browsers (s_st s)) j = Some b -> b_services b = [] ->
+  exists p, LC (b_type b) j [] (out_sigs (snd (run_outs world bapi world_handle fuel s ops))) p.
+Proof.
+  intros Nb E. destruct (run_covers world bapi world_handle fuel ops s) as [evs [C1 C2]].
+  pose proof (browser_life_cycles evs (s_st s) j b Nb E) as H. unfold world_life in H.
+  destruct (life world bapi world_handle evs (s_st s)) as [w' es]. cbn [fst snd] in *.
+  destruct H as (p & b' & L & _). exists p. rewrite <- C2. apply LC_sigs, L.
+Qed.
+
+(* the ghost key is determined by the reported name and type whenever the instance name contains a dot (every name
+   decoded from the wire ends with one) *)
+Lemma index_of_split c : forall l i, index_of c l = Some i -> l = firstn i l ++ c :: skipn (S i) l.
+Proof.
+  induction l as [|x l IH]; intros i H; cbn in H; [discriminate|].
+  destruct (x =? c)%N eqn:E.
+  - injection H as <-. apply N.eqb_eq in E. subst. reflexivity.
+  - destruct (index_of c l) as [i'|] eqn:E'; [|discriminate]. injection H as <-. cbn. f_equal. apply IH. reflexivity.
+Qed.
+Lemma names_dotted k s : In DOT k -> names k s -> k = bs_data (s_name s) ++ DOT :: bs_data (s_type s).
+Proof.
+  intros Hin Hn. unfold names, split_fq in Hn. cbn [bs_data] in Hn.
+  destruct (index_of DOT k) as [i|] eqn:E.
+  - injection Hn as <- <-. cbn [bs_data]. apply index_of_split, E.
+  - exfalso. clear Hn. induction k as [|x k IH]; [destruct Hin|]. cbn in E. destruct (x =? DOT)%N eqn:E2; [discriminate|].
+    destruct Hin as [->|Hin]; [rewrite N.eqb_refl in E2; discriminate|]. destruct (index_of DOT k); [discriminate|]. apply IH; auto.
 Qed.
